@@ -7,7 +7,7 @@
    retrying endpoints, ALL sequences of attempts. *)
 From Coq Require Import String NArith ZArith List Bool.
 From V Require Import Base.Bytes Base.GoInt TLS.TlsModel gen.CtTypes CT.Rfc6962Spec CT.Rfc6962Proofs CT.CtFuncs
-  Client.ClientModel Client.ClientSpec Client.ClientCodec Client.ClientProofs.
+  Client.ClientModel Client.ClientSpec Client.ClientCodec Client.ClientProofs Client.ShardProofs.
 From V Require TLS.TlsCase.
 Import ListNotations.
 
@@ -215,6 +215,60 @@ Theorem temporal_client_is_add_chain_after_head_check :
 Proof. exact temporal_add_chain_spec. Qed.
 Print Assumptions temporal_client_is_add_chain_after_head_check.
 
+(* 6a. the temporal client with ANY number of shards, GetAcceptedRoots (the shards are asked in
+       parallel; [os] lists their outcomes in ANY order - the order in which they answer): a result
+       only if EVERY shard answered with a complete, decodable 200 response, and then it is exactly the
+       union of what the shards sent, each certificate once; if any shard did not, the call is an error -
+       the error of one such shard, with that shard's status and body - never a partial union *)
+Theorem temporal_roots_every_shard_or_error :
+  forall os : list (outcome (list (option bytes))),
+    (forall l, temporal_get_roots os = COk l ->
+       (forall o, In o os -> exists lo, get_roots o = COk lo /\ good_response o (map Some lo) /\ incl lo l) /\
+       (forall r, In r l -> exists o lo, In o os /\ get_roots o = COk lo /\ In r lo) /\
+       NoDup l) /\
+    ((exists o, In o os /\ ~ is_ok (get_roots o)) ->
+       exists o, In o os /\ ~ is_ok (get_roots o) /\ temporal_get_roots os = get_roots o /\
+                 reported o (temporal_get_roots os)).
+Proof.
+  intros os. split; [intros l; apply temporal_get_roots_ok|apply temporal_get_roots_err].
+Qed.
+Print Assumptions temporal_roots_every_shard_or_error.
+
+(* 6b. the temporal client with ANY number of shards (interval, verifier), AddChain / AddPreChain:
+       requests go to exactly the FIRST shard whose interval holds the NotAfter of the chain head
+       (which must parse without any error), the call is that shard's AddChain / AddPreChain, and a
+       returned SCT verifies under THAT shard's key for the submitted chain and carries its hash;
+       no shard -> a plain error and no request *)
+Theorem temporal_sharded_routes_and_verifies :
+  forall (key : Type) (sig_ok : key -> bytes -> val -> bool) (key_hash : key -> bytes)
+         (x509_of : list bytes -> option bytes) (precert_of : list bytes -> option (bytes * bytes))
+         (parse_cert : bytes -> pclass) (not_after : bytes -> Z)
+         (shards : list (interval * option key)) (chain : list bytes) (et : N) (os : list (outcome sct_rsp)),
+    (forall v i r,
+       temporal_add_chain_sharded key sig_ok key_hash x509_of precert_of parse_cert not_after v shards chain et os = (Some i, r) ->
+       exists c rest iv vk, chain = c :: rest /\ parse_cert c = POk /\ nth_error shards i = Some (iv, vk) /\
+         covers iv (not_after c) = true /\
+         (forall j s, (j < i)%nat -> nth_error shards j = Some s -> covers (fst s) (not_after c) = false) /\
+         r = add_chain key sig_ok key_hash x509_of precert_of v vk chain et os) /\
+    (forall v r,
+       temporal_add_chain_sharded key sig_ok key_hash x509_of precert_of parse_cert not_after v shards chain et os = (None, r) ->
+       r = CPlainErr /\
+       (chain = [] \/ exists c rest, chain = c :: rest /\
+          (parse_cert c <> POk \/ forall s, In s shards -> covers (fst s) (not_after c) = false))) /\
+    (forall i s iv k,
+       temporal_add_chain_sharded key sig_ok key_hash x509_of precert_of parse_cert not_after patched shards chain et os = (Some i, COk s) ->
+       ts_ok (s_ts s) -> nth_error shards i = Some (iv, Some k) -> length (key_hash k) = 32%nat ->
+       exists e : entry,
+         submitted_entry x509_of precert_of chain et e /\ entry_type e = et /\ entry_ok e /\ ext_ok (s_ext s) /\
+         s_version s = 0%N /\
+         sig_ok k (enc_sct_siginput (s_ts s) e (s_ext s)) (s_sig s) = true /\
+         s_logid s = key_hash k).
+Proof.
+  intros. split; [intros v i r; apply sharded_routed|]. split; [intros v r; apply sharded_refused|].
+  intros i s iv k H Hts Hn Hl. exact (sharded_verified key sig_ok key_hash x509_of precert_of parse_cert not_after shards chain et os i s H Hts iv k Hn Hl).
+Qed.
+Print Assumptions temporal_sharded_routes_and_verifies.
+
 (* 12. histories: over ANY sequence of GetSTH calls on one client with a verifier, every STH that
        any of the calls returns verifies under the configured key over ITS OWN fields - whatever
        the earlier calls were served and whether they were accepted or refused *)
@@ -294,3 +348,25 @@ Example get_sth_history_example :
     = [COk {| t_size := 7; t_ts := 99; t_root := rep 32 (n2b 1); t_sig := ex_ds |}; CRspErr 200 2;
        COk {| t_size := 7; t_ts := 99; t_root := rep 32 (n2b 1); t_sig := ex_ds |}; CRspErr 200 3].
 Proof. vm_compute. reflexivity. Qed.
+
+(* three shards answer get-roots: all well -> the union, each certificate once; the middle one with a
+   500 (or an undecodable certificate) -> that shard's error, whichever shard answers last *)
+Example temporal_roots_example :
+  let good := fun b l => Resp (mkResp 200 b true true true (Some (map Some l))) in
+  let a := hex "3001" in let b := hex "3002" in let c := hex "3003" in
+  temporal_get_roots [good 1%N [a; b]; good 2%N [b; c]; good 3%N [c; a]] = COk [a; b; c]
+  /\ temporal_get_roots [good 1%N [a; b]; Resp (mkResp 500 7 true true true None); good 3%N [c; a]] = CRspErr 500 7
+  /\ temporal_get_roots [good 1%N [a; b]; Resp (mkResp 200 8 true true true (Some [Some a; None])); good 3%N [c]] = CRspErr 200 8
+  /\ temporal_get_roots [NoResp false; good 3%N [c]] = CPlainErr.
+Proof. vm_compute. repeat split; reflexivity. Qed.
+
+(* two shards, the second with the key: a chain head whose NotAfter lies in the second interval is
+   submitted there and its SCT verified under that shard's key; a NotAfter on the boundary belongs
+   to the later shard; one beyond the last bound is refused without a request *)
+Example temporal_sharded_example :
+  let shards := [((None, Some 100%Z), None); ((Some 100%Z, Some 200%Z), Some tt)] in
+  let run := fun na => temporal_add_chain_sharded unit ex_ok (fun _ => ex_kh) (fun _ => Some ex_cert) (fun _ => None)
+                         (fun _ => POk) (fun _ => na) patched shards [hex "00"] 0 ex_os in
+  run 150%Z = (Some 1%nat, COk {| s_version := 0; s_logid := ex_kh; s_ts := 1234; s_ext := []; s_sig := ex_ds |})
+  /\ fst (run 100%Z) = Some 1%nat /\ fst (run 99%Z) = Some 0%nat /\ run 200%Z = (None, CPlainErr).
+Proof. vm_compute. repeat split; reflexivity. Qed.
